@@ -253,6 +253,77 @@ def check_forwarding(chk, F):
     chk.sample({"forwarding_impls": [i["self_ty"] for i in fwd], "methods": methods})
 
 
+# ---- R02.9 the map satisfiers ---------------------------------------------------------------------------------------------
+
+def check_map_satisfiers(chk, F):
+    from ..interp import Machine, Adt, Panic, some, NONE
+    from ..builtins import deref, PyMap
+    R = "R02.9"
+    chk.rule(R, "the Satisfier impls for maps (BTreeMap / HashMap keyed by key, by (key, leaf), by key hash, by (key hash, leaf)): "
+                "a look-up returns the signature (and key) stored for exactly the asked key / leaf - hash-keyed maps are asked "
+                "with the HASH160 of the key's context serialization - and None for every other key, leaf or hash")
+    imps = [i for i in F.impls if (i["trait"] or "").endswith("Satisfier") and (i.get("self_ty") or "").startswith("std::collections::")]
+    if len(imps) < 8:
+        chk.fail(R, "anchor", "expected 8 map impls of Satisfier, found %d" % len(imps), kind="unanalysable")
+        return
+    m = Machine(F, strict=True)
+    h = m.hooks
+
+    def tph(m_, a, c):
+        return ("h160", deref(a[1]).variant, deref(a[0]))
+    h["ToPublicKey::to_pubkeyhash"] = tph
+    h["miniscript::ToPublicKey::to_pubkeyhash"] = tph
+    h["ToPublicKey::to_public_key"] = lambda m_, a, c: ("pk", deref(a[0]))
+    h["ToPublicKey::to_x_only_pubkey"] = lambda m_, a, c: ("xonly", deref(a[0]))
+    n = 0
+    for imp in imps:
+        st = imp["self_ty"]
+        items = {it["name"]: it["path"] for it in imp["items"]}
+        chk.saw(*items.values())
+        kind = "key" if "<Pk, bitcoin::ecdsa::Signature>" in st else \
+            "key-leaf" if "<(Pk, bitcoin::TapLeafHash), bitcoin::taproot::Signature>" in st else \
+            "hash" if ", (Pk, bitcoin::ecdsa::Signature)>" in st else "hash-leaf"
+        EH = lambda k: ("h160", "Ecdsa", k)
+        SH = lambda k: ("h160", "Schnorr", k)
+        if kind == "key":
+            mp = PyMap([("A", "sA"), ("B", "sB")])
+            table = [("lookup_ecdsa_sig", ["A"], some("sA")), ("lookup_ecdsa_sig", ["B"], some("sB")), ("lookup_ecdsa_sig", ["C"], NONE)]
+        elif kind == "key-leaf":
+            mp = PyMap([(("A", "L1"), "t1"), (("A", "L2"), "t2"), (("B", "L1"), "t3")])
+            table = [("lookup_tap_leaf_script_sig", ["A", "L1"], some("t1")), ("lookup_tap_leaf_script_sig", ["A", "L2"], some("t2")),
+                     ("lookup_tap_leaf_script_sig", ["B", "L1"], some("t3")), ("lookup_tap_leaf_script_sig", ["B", "L2"], NONE),
+                     ("lookup_tap_leaf_script_sig", ["C", "L1"], NONE)]
+        elif kind == "hash":
+            mp = PyMap([(EH("A"), ("A", "sA")), (EH("B"), ("B", "sB"))])
+            table = [("lookup_ecdsa_sig", ["A"], some("sA")), ("lookup_ecdsa_sig", ["C"], NONE),
+                     ("lookup_raw_pkh_pk", [EH("B")], some(("pk", "B"))), ("lookup_raw_pkh_pk", [EH("C")], NONE),
+                     ("lookup_raw_pkh_pk", [SH("B")], NONE),
+                     ("lookup_raw_pkh_ecdsa_sig", [EH("A")], some((("pk", "A"), "sA"))), ("lookup_raw_pkh_ecdsa_sig", [EH("C")], NONE)]
+        else:
+            mp = PyMap([((SH("A"), "L1"), ("A", "t1")), ((SH("A"), "L2"), ("A", "t2")), ((SH("B"), "L1"), ("B", "t3"))])
+            table = [("lookup_tap_leaf_script_sig", ["A", "L2"], some("t2")), ("lookup_tap_leaf_script_sig", ["B", "L2"], NONE),
+                     ("lookup_tap_leaf_script_sig", ["C", "L1"], NONE),
+                     ("lookup_raw_pkh_tap_leaf_script_sig", [(SH("B"), "L1")], some((("xonly", "B"), "t3"))),
+                     ("lookup_raw_pkh_tap_leaf_script_sig", [(SH("B"), "L2")], NONE),
+                     ("lookup_raw_pkh_tap_leaf_script_sig", [(EH("A"), "L1")], NONE)]
+        short = ("BTreeMap" if "BTreeMap" in st else "HashMap") + "/" + kind
+        for name, args, want in table:
+            key = "%s|%s|%s" % (short, name, ",".join(repr(x) for x in args))
+            if name not in items:
+                chk.fail(R, key, "%s does not implement %s (the default answers None)" % (short, name), where="src/miniscript/satisfy/mod.rs")
+                continue
+            n += 1
+            try:
+                r = m.call_callee({"def": items[name], "resolved": items[name], "name": name, "targs": ["PK"]}, [mp] + list(args))
+                chk.obligation(R, repr(deref(r)) == repr(want), key, "%s gives %r, expected %r" % (key, r, want),
+                               where="src/miniscript/satisfy/mod.rs")
+            except Unsupported as e:
+                chk.fail(R, "unanalysable:" + key, "unanalysable: %s" % e, where=e.where, kind="unanalysable")
+            except Panic as e:
+                chk.fail(R, key, "panic: %s" % e, where="src/miniscript/satisfy/mod.rs")
+    chk.floor(R, "look-up cases", n, 40)
+
+
 def run(chk):
     F = chk.facts()
     chk.explanation = (
@@ -287,3 +358,4 @@ def run(chk):
     chk.guard("R02.8", "asset-key-matching", c17.check_key_source_table,
               RuleAlias(chk, {"R17.6": "R02.8"}, "Assets key matching: a key source signs for exactly its own path and its direct "
                                                  "children (exhaustive table on short paths; rule shared with C17)"), F)
+    chk.guard("R02.9", "map-satisfiers", check_map_satisfiers, chk, F)
